@@ -259,6 +259,8 @@ structure SendJoinIn where
   /-- NewEventFromUntrustedJSON returned no error -/
   parses : Bool
   -- event shape, as the accessors report it
+  /-- event.Type() -/
+  evType : Bytes
   stateKey : Option Bytes
   sender : Bytes
   eventRoomID : Bytes
@@ -311,9 +313,12 @@ def sendJoinTail (i : SendJoinIn) : R SendJoinOut :=
     else if !viaLocal i then .error eBadJSON
     else .ok { alreadyJoined := cur == b!"join", sig := { signer := i.localServer, keyID := i.keyID } }
 
-/-- "Check that this is in fact a join event" and the signature check -/
+/-- "Check that this is in fact a join event" — the event type first (`event.Type() != spec.MRoomMember`, the round-4
+    repair: before it an event of ANY type with state_key == sender and content.membership == "join" was accepted and
+    counter-signed), then `Membership()` — and the signature check -/
 def sendJoinEventChecks (i : SendJoinIn) : R SendJoinOut :=
-  match i.membership with
+  if i.evType != b!"m.room.member" then .error eBadJSON
+  else match i.membership with
   | none => .error eBadJSON
   | some m =>
     if m != b!"join" then .error eBadJSON
